@@ -333,6 +333,21 @@ def run(ctx):
                         if got != exp[p]:
                             violations.append(Violation("raw timestamps of %r differ from the encoded (seconds, fractions) in the %s: %s vs %s" % (
                                 c.path, label, got[:3], exp[p][:3]), dict(kind="raw-file", file=data.hex(), path=p, how=label)))
+                        else:
+                            # the same values one by one: iteration over the channel, and over the slices of every chunk
+                            ways = [("iteration", lambda: list(c))]
+                            if label == "lazy read":
+                                ways.append(("iteration over chunk[:] of data_chunks()", lambda: [t for ck in c.data_chunks() for t in ck[:]]))
+                                ways.append(("integer indexing", lambda: [c[k] for k in range(len(c))]))
+                            for wl, wf in ways:
+                                try:
+                                    one = [struct.pack("<Qq", int(t.second_fractions), int(t.seconds)).hex() for t in wf()]
+                                except Exception as ex:  # noqa
+                                    one = "raised %s: %s" % (type(ex).__name__, str(ex)[:80])
+                                if one != exp[p]:
+                                    violations.append(Violation("raw timestamps of %r taken by %s in the %s differ from the encoded (seconds, fractions): %s vs %s" % (
+                                        c.path, wl, label, str(one)[:100], exp[p][:3]), dict(kind="raw-file", file=data.hex(), path=p, how=label + ", " + wl)))
+                                    break
                         for k, v in c.properties.items():
                             want = exp_props.get((p, k.encode("utf-8").hex()))
                             if want is not None and hasattr(v, "second_fractions") and struct.pack("<Qq", int(v.second_fractions), int(v.seconds)).hex() != want:
